@@ -373,7 +373,7 @@ func Gen(rng *hx.Rng, o GenOpt) *Raw {
 		if o.Contiguous {
 			r.Offs = append(r.Offs, pos)
 			var sz uint64
-			for i := exp.first[c]; i < exp.first[c]+exp.count[c]; i++ {
+			for i := exp.First[c]; i < exp.First[c]+exp.Count[c]; i++ {
 				sz += uint64(r.sizeOf(i))
 			}
 			pos += sz
@@ -411,11 +411,11 @@ func (r *Raw) sizeOf(i int) uint32 { // i is 0-based
 	return r.Sizes[i]
 }
 
-type chunkExp struct{ first, count []int } // per chunk (0-based): first sample (0-based), nr of samples
+type ChunkExp struct{ First, Count []int } // per chunk (0-based): first sample (0-based), nr of samples
 
 // Expand0 expands the stsc runs over nchunks chunks.
-func Expand0(stsc [][3]uint32, nchunks int) chunkExp {
-	var e chunkExp
+func Expand0(stsc [][3]uint32, nchunks int) ChunkExp {
+	var e ChunkExp
 	s := 0
 	for c := 1; c <= nchunks; c++ {
 		// the run chunk c belongs to: the last entry whose first chunk is <= c (linear scan)
@@ -429,8 +429,8 @@ func Expand0(stsc [][3]uint32, nchunks int) chunkExp {
 		if k >= 0 {
 			cnt = int(stsc[k][1])
 		}
-		e.first = append(e.first, s)
-		e.count = append(e.count, cnt)
+		e.First = append(e.First, s)
+		e.Count = append(e.Count, cnt)
 		s += cnt
 	}
 	return e
@@ -493,8 +493,8 @@ func Expand(r *Raw) *Ref {
 	ce := Expand0(r.Stsc, x.NChunks)
 	x.ChunkOff = append(x.ChunkOff, r.Offs...)
 	for c := 0; c < x.NChunks; c++ {
-		x.ChunkFirst = append(x.ChunkFirst, ce.first[c]+1)
-		x.ChunkCount = append(x.ChunkCount, ce.count[c])
+		x.ChunkFirst = append(x.ChunkFirst, ce.First[c]+1)
+		x.ChunkCount = append(x.ChunkCount, ce.Count[c])
 		id := uint32(0)
 		for _, en := range r.Stsc {
 			if int(en[0]) <= c+1 {
@@ -503,11 +503,11 @@ func Expand(r *Raw) *Ref {
 		}
 		x.ChunkSdid = append(x.ChunkSdid, id)
 		off := r.Offs[c]
-		for k := 0; k < ce.count[c]; k++ {
+		for k := 0; k < ce.Count[c]; k++ {
 			x.ChunkOf = append(x.ChunkOf, c+1)
 			x.OffsetOf = append(x.OffsetOf, off)
-			if ce.first[c]+k < x.N {
-				off += uint64(x.Size[ce.first[c]+k])
+			if ce.First[c]+k < x.N {
+				off += uint64(x.Size[ce.First[c]+k])
 			}
 		}
 	}
